@@ -189,7 +189,9 @@ func Shrink(s Script, ex Exec, want *Violation, budget int) (Script, *Violation,
 		}
 		execs++
 		o := ex(c)
-		if o.V != nil && o.V.Property == want.Property && o.V.Oracle == want.Oracle {
+		// same violation = same oracle AND same model-derived class, so that shrinking
+		// cannot drift from one finding into another (e.g. into a listed known finding)
+		if o.V != nil && o.V.Property == want.Property && o.V.Oracle == want.Oracle && o.V.Class == want.Class {
 			return o.V
 		}
 		return nil
